@@ -123,6 +123,20 @@ void run_c07(const std::vector<std::vector<std::string>>& cases, vt::Rng& rng)
       MssmPt p0 = cls == "hightb" ? vm::random_mssm(rng, 320, 1500, 30, 80)
                 : cls == "compressed" ? vm::random_mssm(rng, 320, 420)
                 : vm::random_mssm(rng, 320, 2000);
+      if (cls == "degenerate") {
+         const double m = rng.logu(320, 900);
+         int n = 0;
+         while (n < 2) {
+            n = 0;
+            MssmPt q = p0;
+            if (rng.coin()) { q.Mu = (q.Mu < 0 ? -m : m); ++n; }
+            if (rng.coin()) { q.M1 = (q.M1 < 0 ? -m : m); ++n; }
+            if (rng.coin()) { q.M2 = (q.M2 < 0 ? -m : m); ++n; }
+            if (rng.coin()) { q.ml2[1] = m * m; ++n; }
+            if (rng.coin()) { q.me2[1] = m * m; ++n; }
+            if (n >= 2) p0 = q;
+         }
+      }
       for (int k = 1; k <= 64; k *= 2) {
          MssmPt p = p0;
          p.Mu *= k; p.M1 *= k; p.M2 *= k; p.M3 *= k; p.MA0 *= k; p.Q *= k;
